@@ -145,7 +145,7 @@ std::vector<Clause> buildClauses() {
     add("setHierarchicalCoefficients/size", "runtime_error", false, [](const TasmanianSparseGrid &g) { return !g.empty() && g.getNumOutputs() > 0 && g.getNumPoints() > 0 && !g.isUsingConstruction(); },
         [](TasmanianSparseGrid &g, Rng &r) { size_t n = (size_t)g.getNumPoints() * (size_t)g.getNumOutputs() * (g.isFourier() ? 2 : 1); g.setHierarchicalCoefficients(std::vector<double>(r.chance(0.5) ? n + 1 : n - 1, 0.25)); });
     add("getGlobalPolynomialSpace/family", "runtime_error", false, [](const TasmanianSparseGrid &g) { return g.isLocalPolynomial() || g.isWavelet() || g.isFourier(); }, [](TasmanianSparseGrid &g, Rng &r) { (void)g.getGlobalPolynomialSpace(r.chance(0.5)); });
-    add("removePointsByHierarchicalCoefficient/family", "runtime_error", false, [](const TasmanianSparseGrid &g) { return !g.empty() && !g.isLocalPolynomial(); }, [](TasmanianSparseGrid &g, Rng &r) { if (r.chance(0.5)) g.removePointsByHierarchicalCoefficient(0.1, 0); else g.removePointsByHierarchicalCoefficient(3, 0); });
+    add("removePointsByHierarchicalCoefficient/family", "runtime_error", false, [](const TasmanianSparseGrid &g) { return !g.empty() && !g.isLocalPolynomial(); }, [](TasmanianSparseGrid &g, Rng &r) { if (r.chance(0.4)) g.removePointsByHierarchicalCoefficient(0.1, 0); else g.removePointsByHierarchicalCoefficient(r.pick<int>({3, 0, 1, 0}), 0); }); // incl. the boundary count 0 ("keep nothing")
     // ---- acceleration (no GPU in this build)
     add("evaluateBatch/float-no-gpu", "runtime_error", false, [](const TasmanianSparseGrid &g) { return !g.empty() && g.getNumOutputs() > 0 && g.getNumLoaded() > 0; }, [](TasmanianSparseGrid &g, Rng &) { std::vector<float> x((size_t)g.getNumDimensions(), 0.1f), y; g.evaluateBatch(x, y); });
     add("evaluateBatchGPU/no-gpu", "runtime_error", false, [](const TasmanianSparseGrid &g) { return !g.empty() && g.getNumOutputs() > 0 && g.getNumLoaded() > 0; }, [](TasmanianSparseGrid &g, Rng &) { std::vector<double> x((size_t)g.getNumDimensions(), 0.1), y((size_t)g.getNumOutputs()); g.evaluateBatchGPU(x.data(), 1, y.data()); });
